@@ -783,7 +783,12 @@ pub fn format_function_body(
             contains_comments || type_specifier_comments
         });
 
+        // A single line comment after the opening parenthesis would comment out the parameters on the same line
+        let (start_parens, _) = function_body.parameters_parentheses().tokens();
+        let parentheses_comments = start_parens.has_trailing_comments(CommentSearch::Single);
+
         contains_comments
+            || parentheses_comments
             || should_parameters_format_multiline(ctx, function_body, shape, should_collapse)
     };
 
